@@ -25,4 +25,4 @@ TEXT = {'text': 'Kernel-checked theorems for every consensus codec (confidential
  'note': 'Trusted: Coq kernel; hand-written Gallina codecs tied to the Rust by per-run correspondence; secp256k1 point validity as an oracle fed from the '
          'library; proof-format rules transcribed from the vendored C; element caps reported by the harness. The clause about values produced by the blinding '
          "functions is covered by correspondence only (C04's stream), not by a theorem.",
- 'technique': 'Coq proof (codec combinator laws by induction; flag-bit arithmetic by N bit lemmas + lia) + per-run model/implementation correspondence'}
+ 'technique': 'Coq proof (codec combinator laws by induction; flag-bit arithmetic by N bit lemmas + lia; the branching predicates has_witness / has_issuance / is_empty / is_null / encoded_length / VarInt::size translated from the Rust source on every run and proved equal to the model) + per-run model/implementation correspondence'}
